@@ -84,6 +84,17 @@ PROPS["C14"] = A("TestSim_C14",
     assumptions=COMMON_ASSUME + ["the data-race clause (shared data touched only under its lock/atomic) is not decided by the serial scheduler: every hand-off between tasks creates a happens-before edge; see DESIGN.md 2.11",
                                  "long-polling sessions abandoned by their client are excluded from the attachment bijection (they are detached only when the registry expires them)"])
 
+PROPS["C09"] = A("TestSim_C09",
+    "one evaluation = one simulated run: population as in C01 (groups, channels with channel readers, p2p; gRPC and long-polling clients), 2-8 messages published, then 4-16 strictly "
+    "sequential isolated actions: notes read/recv/kp/kpa/unknown/data with seq in {0, negative, 1, stale, current, current+1, middle, last, last+1, huge} from attached and detached sessions "
+    "(recv is routed through the hub), publishes, leave/subscribe, unsubscribe, own and owner-made permission changes (dropping R or W), full topic reloads. "
+    "Exact model of (read, recv) per subscription compared after every action with the topic cache and the simulated disk; bounds 0<=read<=recv<=last in cache and store; monotonicity per "
+    "subscription incarnation; relay oracle per note from the snapshot at fire time (exactly the attached sessions of readers other than the origin, never channel readers, kp never to the typist and "
+    "only from writers, plus 'me' sessions of offline readers; true sender; recipient's own topic name); an invalid note causes no frame anywhere, no store write and no push. "
+    "Non-trivial = at least two different note kinds and one invalid note judged in the run; distinct = distinct (program hash, schedule hash).",
+    probes=["c09.reload"], assumptions=COMMON_ASSUME + ["notes addressed to a topic the session is not attached to are answered 409 by design (docs/API.md); only 'no side effect' is required for them",
+                                                       "over gRPC only kp/read/recv/call note kinds exist in the protobuf enum; other kinds are exercised from long-polling clients"])
+
 NOT_APPLICABLE = {
     "C20": "pure functions of one input (id codecs, name spellings, JSON<->protobuf converters): no schedule, clock, fault, crash point or second party for a simulator to decide; see DESIGN.md section 6",
 }
